@@ -84,10 +84,19 @@ func (n *node[T]) buildMethods() {
 	buildMethodIndexes(n.methodIndex)
 }
 
-func (n *node[T]) AllowHeader() string { return methodIndexes[n.methodIndex].options }
+func (n *node[T]) AllowHeader() string { return methodIndexes[n.index()].options }
 
 // Methods 当前节点支持的请求方法
-func (n *node[T]) Methods() []string { return methodIndexes[n.methodIndex].methods }
+func (n *node[T]) Methods() []string { return methodIndexes[n.index()].methods }
+
+// 读取 methodIndex，这两个方法会在锁的范围之外被调用，比如 405 的处理函数，所以需要自行加锁。
+func (n *node[T]) index() int {
+	if l := n.root.locker; l != nil {
+		l.RLock()
+		defer l.RUnlock()
+	}
+	return n.methodIndex
+}
 
 // 检测 methods 是否都能添加至 n，n 为 nil 表示节点尚不存在。
 func (tree *Tree[T]) checkMethods(n *node[T], methods ...string) error {
